@@ -14,6 +14,7 @@ PROPS = {
     "C07": {"coq": "Properties/C07.v", "gens": ["C07"], "trusted_base": CRYPTO_TB, "bins": True},
     "C08": {"coq": "Properties/C08.v", "gens": ["C08"], "trusted_base": CRYPTO_TB},
     "C09": {"coq": "Properties/C09.v", "gens": ["C09"], "trusted_base": CRYPTO_TB},
+    "C10": {"coq": "Properties/C10.v", "gens": ["C10", "C05", "C15", "C16"]},
     "C11": {"coq": "Properties/C11.v", "gens": ["C11"]},
     "C12": {"coq": "Properties/C12.v", "gens": ["C12"]},
     "C13": {"coq": "Properties/C13.v", "gens": ["C13"]},
